@@ -310,20 +310,21 @@ def generate(req):
     return {"gen": meta}
 
 
-def decode_lengths(ps, exhaustive):
+def decode_lengths(ps, exhaustive, spread=0):
     xt, xi, m = thresholds(ps)
     u = ps
     if exhaustive:
         return list(range(0, 3 * ps + 1))
     s = set(range(0, 20))
+    w1, w2, nmax = 8 + spread, 4 + spread, (3 if not spread else 5)
     for base in (xt, xi, m, ps, u - 4, 2 * (u - 4), 3 * (u - 4)):
-        for d in range(-8, 9):
+        for d in range(-w1, w1 + 1):
             s.add(base + d)
-    for n in (1, 2, 3):
+    for n in range(1, nmax + 1):
         for x in (xt, xi):
-            for d in range(-4, 5):
+            for d in range(-w2, w2 + 1):
                 s.add(x + n * (u - 4) + d)      # K crosses X
-        for d in range(-4, 5):
+        for d in range(-w2, w2 + 1):
             s.add(m + n * (u - 4) + d)          # K wraps to M
     return sorted(v for v in s if v >= 0)
 
@@ -342,7 +343,7 @@ def generate_decode(req):
     c = sqlite3.connect(path, isolation_level=None)
     c.execute("pragma page_size=%d" % ps)
     c.execute("begin")
-    lens = decode_lengths(ps, bool(prof.get("exhaustive")))
+    lens = decode_lengths(ps, bool(prof.get("exhaustive")), int(prof.get("spread", 0)))
     # record overhead differs per table, so blob lengths sweep payload lengths
     c.execute("create table d_len(id INTEGER PRIMARY KEY, p)")
     c.execute("create table d_wr(k INTEGER PRIMARY KEY, p) WITHOUT ROWID")
